@@ -106,17 +106,34 @@ def diff(before: dict, after: dict) -> list:
 # storage faults, injected into nauyaca.server.handler's namespace (we run as root: chmod is useless)
 # ----------------------------------------------------------------------------------------------
 class Fault:
-    kind = None      # None | mkdir | open | write | rename | unlink
+    kind = None      # None | mkdir | open | write | rename | unlink | fsize
     arg = 0
     made = 0         # directories created so far in this request
     tag = "nvtmp"    # what secrets.token_hex returns inside the handler module
+    saved_limit = None
 
 
 def set_fault(f, tag="nvtmp") -> None:
+    """arm (or, with None, disarm) a storage fault.
+
+    `["fsize", k]` is a fault of the REAL kernel, not of a stand-in object: the process's file-size limit is lowered to k bytes
+    while the fault is armed, so storage accepts only the first k bytes of a file - the way a full disk, a quota or a file-size
+    limit presents itself to a program: a write(2) that can store SOME of its bytes succeeds with a short count, and only the
+    next one fails (EFBIG / ENOSPC / EDQUOT).  It is independent of how the handler opens and writes its files.  (CPython ignores
+    SIGXFSZ; only regular files are limited, so pipes, sockets and the event loop are not affected.)"""
+    import resource
+
+    if Fault.saved_limit is not None:
+        resource.setrlimit(resource.RLIMIT_FSIZE, Fault.saved_limit)
+        Fault.saved_limit = None
     Fault.kind = f[0] if f else None
     Fault.arg = f[1] if f and len(f) > 1 else 0
     Fault.made = 0
     Fault.tag = tag
+    if Fault.kind == "fsize":
+        soft, hard = resource.getrlimit(resource.RLIMIT_FSIZE)
+        Fault.saved_limit = (soft, hard)
+        resource.setrlimit(resource.RLIMIT_FSIZE, (Fault.arg, hard))
 
 
 class _FailingFile:
